@@ -886,10 +886,10 @@ def run(ctx):
     plan = []
     for major in (3, 2):
         k = 1.0 if major == 3 else 0.5
-        plan += [(major, 'include')] * int(ctx.pick(70, 1500) * k)
+        plan += [(major, 'include')] * int(ctx.pick(70, 1300) * k)
         plan += [(major, 'cycle')] * int(ctx.pick(10, 100) * k)
         plan += [(major, 'missing')] * int(ctx.pick(2, 20) * k)
-        plan += [(major, 'alias:chain')] * int(ctx.pick(30, 600) * k)
+        plan += [(major, 'alias:chain')] * int(ctx.pick(30, 500) * k)
         plan += [(major, 'alias:cycle')] * int(ctx.pick(8, 100) * k)
         plan += [(major, 'alias:undefined')] * int(ctx.pick(4, 50) * k)
         plan += [(major, 'alias:name-over-object')] * int(ctx.pick(6, 100) * k)
